@@ -100,11 +100,13 @@ theorem signBitMask_width (w : Nat) : (Tools.signBitMask w).width = w := by
   · simp [Tools.constUint, Expr.width, Mltwist.Lemmas.Const.natToLE_length]
   · rfl
 
-theorem wf_bitMask {bits w : Nat} (h : WOK w) : (Tools.bitMask bits w).wf = true := by
-  unfold Tools.bitMask Tools.bitMaskRaw
+theorem wf_bitMaskRaw {bits w : Nat} (h : WOK w) : (Tools.bitMaskRaw bits w).wf = true := by
+  unfold Tools.bitMaskRaw
   split
   · exact wf_constUint _ w h
   · exact wf_sub (wf_bin _ wf_one' (wf_constUint _ 2 (by decide)) h) wf_one' h
+
+theorem wf_bitMask {bits w : Nat} (h : WOK w) : (Tools.bitMask bits w).wf = true := wf_bitMaskRaw h
 
 theorem wf_maskBits {e : Expr} {cnt w : Nat} (he : e.wf = true) (h : WOK w) : (Tools.maskBits e cnt w).wf = true :=
   wf_bitAnd he (wf_bitMask h) h
